@@ -306,7 +306,12 @@ def _run(ctx, collect):
                     meta.append(("alone", text, None, label, feature, name))
         if not docs:
             continue
-        answers = ctx.driver.ask([{"op": "validate_many", "schema": world.dump(), "fixes": fixes, "docs": docs}])[0]
+        # in chunks: one request per <= 500 documents, so that no single request comes near the driver's time limit
+        # on a loaded machine (a thorough run asks for ~10^4 answers about one schema)
+        answers = []
+        schema_dump = world.dump()
+        for i in range(0, len(docs), 500):
+            answers += ctx.driver.ask([{"op": "validate_many", "schema": schema_dump, "fixes": fixes, "docs": docs[i:i + 500]}])[0]
         alone_real = {}
         for (kind, text, real, label, feature, rule), ans in zip(meta, answers):
             ctx.count()
